@@ -166,6 +166,17 @@ def rule_fold(check, rule, key, step_names, witness):
             elif stars:
                 ok = False
         node = [e for e in p.effects if e.kind == 'return'][-1].node
+        if ok is not None:
+            # ... on top of the first input: everything that is not a parameter (return annotation) comes from it
+            base = v[2][0] if v[2] and v[2][0][0] != 'STAR' else None
+            kb = 'fold-result-base|%s' % fi.key
+            if base == ('S', f.var, K(0)):
+                check.holds(rule, site_of(fi, node), 'the result is rebuilt on top of input 0', key=kb)
+            elif base is not None and base[0] == 'S' and base[1] == f.var and base[2][0] == 'K':
+                check.violation(rule, site_of(fi, node), 'the result is rebuilt on top of input %r instead of input 0: its return annotation '
+                                '(and for a single input, the result itself) comes from another signature' % (base[2][1],), key=kb, witness=witness)
+            else:
+                check.inconclusive(rule, site_of(fi, node), 'base signature of the result not understood: %s' % (show(base)[:80] if base else None), key=kb)
         if ok is True:
             check.holds(rule, site_of(fi, node), 'result is rebuilt from the final accumulator', key=k)
         elif ok is False:
